@@ -18,12 +18,12 @@ impl<R: Seek + Read> XorReader<R> {
 impl<R: Read> Read for XorReader<R> {
 //@extract fn src/blockchain/parser/reader.rs :: impl<R: Read> Read for XorReader<R> :: read
 //@vis none
-//@before `let n = self.reader.read(buf)?;`
+//@before `let n = self`
         let ghost p = self.absolute_pos as int;
         let ghost f = self.reader.file();
         let ghost key0 = self.xor_key;
         proof { self.reader.lemma_stream_bounds(); }
-//@after `let n = self.reader.read(buf)?;`
+//@after `let n = self`
         let ghost raw = buf@;
 //@loop 1
                 invariant
